@@ -28,6 +28,7 @@ import (
 //	reset_after    headers + K of N tokens, then RST
 //	close_after    headers + K of N tokens, then FIN (short Content-Length / missing last chunk)
 //	stall_after    headers + K of N tokens, then nothing until released or the peer goes away
+//	stall_pre      read the request, then nothing at all until the peer goes away
 //	raw            write Raw verbatim, then close
 type Plan struct {
 	Kind    string            `json:"kind"`
@@ -388,6 +389,15 @@ func (b *Backend) execute(c net.Conn, r *Recv, p Plan) bool {
 		return false
 	case "close_pre":
 		c.Close()
+		done()
+		return false
+	case "stall_pre":
+		// say nothing at all: wait until the peer goes away (or 20 s)
+		c.SetReadDeadline(time.Now().Add(20 * time.Second))
+		buf := make([]byte, 1)
+		if _, err := c.Read(buf); err != nil && !isTimeout(err) {
+			peerGone = true
+		}
 		done()
 		return false
 	case "garbage":
